@@ -89,6 +89,13 @@ class ModPoly:
         e = v.e
         op = e[0]
         r = None
+        if self.rng is not None and e[0] not in ('in',):
+            rg = self.rng(v)
+            if rg is not None and rg[0] == rg[1]:
+                # the value is a known constant on this piece
+                r = {(): rg[0] % q} if rg[0] % q else {}
+                self.memo[v] = r
+                return r
         h = self.assume(e)
         if h is not None:
             r = h
@@ -158,6 +165,8 @@ class ModPoly:
                         dec = True if ra[0] >= rb[1] else (False if ra[1] < rb[0] else None)
             if dec is not None:
                 r = self.of(e[2] if dec else e[3])
+            elif self.of(e[2]) == self.of(e[3]):
+                r = self.of(e[2])       # both branches are congruent: the decision does not matter
         elif op == 'and' and e[1] == 64 and any(is_int(x) and x > 0 and (x & (x + 1)) != 0 and ((x >> ((x & -x).bit_length() - 1)) & ((x >> ((x & -x).bit_length() - 1)) + 1)) == 0 for x in e[2:4]):
             # mask of contiguous ones starting at bit a:  and(t, 2^a*(2^b-1)) = 2^a * ((t >> a) - 2^b * (t >> (a+b)))
             msk = e[2] if is_int(e[2]) else e[3]
@@ -219,9 +228,26 @@ class ModPoly:
             r = self.add(self.of(e[1]), self.scale(self.of(e[2]), 1 << 32))
         elif op == 'in':
             r = {(self.atom(e),): 1}
-        elif op == 'urem' and e[1] in (32, 64) and is_int(e[3]) and e[3] > 0 and e[3] % q == 0:
-            # t mod d = t - d*floor(t/d) and q | d: congruent to t
-            r = self.of(e[2])
+        elif op == 'urem' and is_int(e[3]) and e[3] > 0 and e[3] % q == 0:
+            # t mod d = t - d*floor(t/d) and q | d: congruent to t (t read as the unsigned word)
+            rt = self.rng(e[2]) if (self.rng is not None and isinstance(e[2], Sym)) else (0, 0)
+            if rt is not None and rt[0] >= 0:
+                r = self.of(e[2])
+        elif op == 'srem' and is_int(e[3]) and e[3] > 0 and e[3] % q == 0 and self.rng is not None and isinstance(e[2], Sym):
+            # signed remainder: congruent to the signed value of the word
+            H = 1 << (e[1] - 1)
+            rt = self.rng(e[2])
+            if rt is not None and rt[1] < H:
+                r = self.of(e[2])                      # non-negative word, or a reading that is already signed
+            elif rt is not None and rt[0] >= H:
+                r = self.add(self.of(e[2]), {(): (2 * H) % q}, -1)
+        elif op == 'sext' and self.rng is not None and isinstance(e[3], Sym):
+            H = 1 << (e[1] - 1)
+            rt = self.rng(e[3])
+            if rt is not None and rt[1] < H:
+                r = self.of(e[3])
+            elif rt is not None and rt[0] >= H:
+                r = self.add(self.of(e[3]), {(): (2 * H) % q}, -1)
         elif op == 'xor' and e[1] == 64 and self.rng is not None and any(is_int(x) and x == 1 << 63 for x in e[2:4]):
             # flipping the top bit adds or subtracts 2^63 depending on the (known) sign case
             t = e[3] if is_int(e[2]) else e[2]
@@ -241,7 +267,7 @@ class ModPoly:
         for p in polys:
             for m in p:
                 for a in m:
-                    if inv[a][0] in ('node', 'opaque'):
+                    if inv[a][0] in ('node', 'opaque', 'lshr'):
                         return True
         return False
 
